@@ -146,7 +146,9 @@ func execute(e *Exp) {
 				}
 				continue
 			}
-			res = append(res, Res{Kind: "rec", Ts: ts, B: append(hx.B{}, out...), Pos: rd.pos})
+			// the slice the call returned, NOT a copy: it is serialised when the experiment is over, so a record that a later
+			// call overwrites (a reused buffer) shows up as changed content
+			res = append(res, Res{Kind: "rec", Ts: ts, B: hx.B(out), Pos: rd.pos})
 		}
 		ch <- outT{res, true}
 	}()
